@@ -74,6 +74,7 @@ type MapObj struct {
 	index map[string]int // canonical concrete keys
 	kt    types.Type
 	vt    types.Type
+	hdr   *Cell // stands for the map's internal structure in the race log (any read / any write)
 }
 
 type MapV struct{ obj *MapObj }
